@@ -104,6 +104,8 @@ func c12Text(variant string) (msg string, emote bool, zeroID bool) {
 		return "hello", false, false
 	case "emote":
 		return "waves", true, false
+	case "emote4": // the emote option sent as a 4-byte integer
+		return "waves4", true, false
 	case "zero":
 		return "frog", false, true
 	case "long":
@@ -250,7 +252,9 @@ func (x *c12World) apply(op string, check bool) bool {
 		}
 		msg, emote, zero := c12Text(p[2])
 		fs := []ref.Fld{ref.FS(ref.FData, msg)}
-		if emote {
+		if emote && p[2] == "emote4" {
+			fs = append(fs, ref.F32(ref.FChatOptions, 1))
+		} else if emote {
 			fs = append(fs, ref.F16(ref.FChatOptions, 1))
 		}
 		if zero {
@@ -761,7 +765,7 @@ func c12Pair(p c12PairParams) func() explore.SchedOutcome {
 func c12Alphabet() []string {
 	return []string{
 		"on:0", "on:1", "on:2", "off:0", "off:1", "off:2", "deaf:0", "deaf:2", "edit:0", "edit:1", "editb:0", "editr:0", "editr:2",
-		"pub:0:plain", "pub:0:emote", "pub:0:zero", "pub:0:long", "pub:0:edge", "pub:0:longemote", "pub:1:plain", "pub:1:long", "pub:2:plain",
+		"pub:0:plain", "pub:0:emote", "pub:0:emote4", "pub:0:zero", "pub:0:long", "pub:0:edge", "pub:0:longemote", "pub:1:plain", "pub:1:long", "pub:2:plain",
 		"new:0:1", "new:0:2", "new:1:0", "new:1:2",
 		"inv:0:0:2", "inv:1:0:2", "inv:1:1:0",
 		"join:1:0", "join:2:0", "join:0:0", "join:0:1", "join:2:1",
